@@ -38,11 +38,21 @@ func pagesArg(ps []string) string {
 	return strings.Join(ps, ",")
 }
 
+// trackedArg renders the tracked actions. Tracked READS are only counted: the tracker keeps a pointer into the node's
+// slot array for them, so the key seen through it changes when a later add/remove (or the merge replay, in Go map
+// order) shifts the slots (the aliasing defect owned by C17/C38).
 func trackedArg(ts []string) string {
-	if len(ts) == 0 {
-		return "-"
+	var out []string
+	gets := 0
+	for _, t := range ts {
+		if strings.Contains(t, ":get:") {
+			gets++
+		} else {
+			out = append(out, t)
+		}
 	}
-	return strings.Join(ts, ",")
+	out = append(out, fmt.Sprintf("gets*%d", gets))
+	return strings.Join(out, ",")
 }
 
 func (w *Writer) faultArg() string {
@@ -150,12 +160,26 @@ func Drive(ctx context.Context, s *hx.Session, sc Scenario, sched []int, header 
 			s.Hit(h)
 		}
 	}()
+	countStruck := false
 	dump := func(after int) error {
+		if after >= 0 {
+			w := r.W[after]
+			if w.faultArg() == "count" && ErrClass(w.Err) == "err:injected" {
+				countStruck = true
+			}
+		}
 		c, items, err := r.Dump()
 		if err != nil {
 			return err
 		}
-		emit("dump", dumpLine(c, items))
+		if countStruck {
+			// the count delta of a failed commit stayed (finding C06-F1): from here on a scan of an EMPTY tree is no
+			// longer meaningful (Count > 0 makes First() hand out the zero item of the empty root), so only the stored
+			// count is compared with the model; the direct oracle still sees the real scan
+			emit("dumpc", fmt.Sprintf("count=%d", c))
+		} else {
+			emit("dump", dumpLine(c, items))
+		}
 		o.Counts = append(o.Counts, c)
 		o.Items = append(o.Items, items)
 		o.After = append(o.After, after)
